@@ -377,12 +377,12 @@ def h1_peer_loss(loss: int, point: int, flavour: int, polls: bool) -> bool:
 
 @harness(
     "C07",
-    dom={"kind": (0, 3), "ti": (0, 1), "flavour": (0, 1), "pc": (0, 2)},
+    dom={"kind": (0, 5), "ti": (0, 1), "flavour": (0, 1), "pc": (0, 2)},
     split={"kind": "each", "flavour": "each"},
     witnesses=[{"kind": 0, "ti": 0, "flavour": 0, "pc": 1}, {"kind": 2, "ti": 1, "flavour": 1, "pc": 2}, {"kind": 3, "ti": 0, "flavour": 0, "pc": 0}],
     budget=120,
     per_path=120,
-    bounds="HTTP/2 connection (ALPN) without streams / with one stream answered after T+1 / WebSocket session held open for 3T / cleartext prior-knowledge HTTP/2 without streams: T in {2,5}, gap before the traffic in {0, T-1, T+1}; both workers",
+    bounds="HTTP/2 connection (ALPN) without streams / with one stream answered after T+1 / WebSocket session held open for 3T / cleartext prior-knowledge HTTP/2 without streams / with a slow request in the same flight as the preface / one stream that the client resets after 0.5 s: T in {2,5}, gap before the traffic in {0, T-1, T+1}; both workers",
     encodes=["hypercorn/protocol/h2.py::H2Protocol.stream_send", "hypercorn/protocol/h2.py::H2Protocol._handle_events", "hypercorn/protocol/ws_stream.py::WSStream.idle",
              "hypercorn/asyncio/tcp_server.py::TCPServer._idle_timeout", "hypercorn/trio/tcp_server.py::TCPServer._idle_timeout"],
     stubs=["tier C runtime", "independent h2 / wsproto clients"],
@@ -393,7 +393,7 @@ def h2_ws_idle(kind: int, ti: int, flavour: int, pc: int) -> bool:
     post: _
     """
     enter()
-    kind = conc(kind, 0, 3)
+    kind = conc(kind, 0, 5)
     T = TS[conc(ti, 0, 1)]
     flavour = "asyncio" if conc(flavour, 0, 1) == 0 else "trio"
     gap = [0.0, T - 1, T + 1][conc(pc, 0, 2)]
@@ -419,7 +419,34 @@ def h2_ws_idle(kind: int, ti: int, flavour: int, pc: int) -> bool:
 
     acts = []
     want = None
-    if kind in (0, 1, 3):
+    if kind == 5:
+        # the client gives up on its only stream half a second after opening it
+        c = H2Client()
+        acts.append(("feed", c.take()))
+        if gap:
+            acts.append(("sleep", gap))
+        if gap >= T:
+            want = T
+        else:
+            c.request(1, b"POST", b"/s", end_stream=False)
+            acts.append(("feed", c.take()))
+            acts.append(("sleep", 0.5))
+            c.reset(1)
+            acts.append(("feed", c.take()))
+            want = gap + 0.5 + T
+        acts.append(("sleep", 3 * T + 3))
+        alpn = "h2"
+    elif kind == 4:
+        # cleartext prior knowledge: preface, SETTINGS and the first request arrive together
+        c = H2Client()
+        c.request(1, b"GET", b"/s", end_stream=True)
+        if gap:
+            acts.append(("sleep", gap))
+        acts.append(("feed", c.take()))
+        want = T if gap >= T else gap + (T + 1) + T
+        acts.append(("sleep", 3 * T + 3))
+        alpn = None
+    elif kind in (0, 1, 3):
         c = H2Client()
         acts.append(("feed", c.take()))
         if gap:
@@ -458,7 +485,7 @@ def h2_ws_idle(kind: int, ti: int, flavour: int, pc: int) -> bool:
         why = f"server closed at t={got}, expected t={want} (T={T}, gap={gap})"
     elif not obs["handler_done"]:
         why = "transport closed but the handler is still running"
-    return done(why == "", kind=["h2 no stream", "h2 one slow stream", "websocket", "cleartext prior-knowledge h2, no stream"][kind], T=T, gap=gap, flavour=flavour, why=why)
+    return done(why == "", kind=["h2 no stream", "h2 one slow stream", "websocket", "cleartext prior-knowledge h2, no stream", "cleartext prior-knowledge h2, slow request in the first flight", "h2 stream reset by the client"][kind], T=T, gap=gap, flavour=flavour, why=why)
 
 
 # ------------------------------------------------------------------ server-side close with a pipelined request parked
